@@ -645,6 +645,8 @@ def StmtWF (sc : Schema) : Stmt → Prop
   | .insert rows => ∀ es ∈ rows, es.length = sc.ncols
   | .failing _ => True
   | .upsert _ _ => False     -- INSERT … ON DUPLICATE KEY UPDATE: not covered by the restore theorems
+  | .updateLim _ _ _ _ => False   -- ORDER BY / LIMIT forms: correspondence only
+  | .deleteLim _ _ _ => False
 
 theorem stmt_restore (sc : Schema) (cfg : Cfg) (t : Table) (args : Args) (s : Stmt)
     (t' : Table) (item : Item) (keys : List Key)
@@ -656,6 +658,8 @@ theorem stmt_restore (sc : Schema) (cfg : Cfg) (t : Table) (args : Args) (s : St
   | insert rows => exact insert_restore sc cfg t args rows t' item keys hu hsh hs h
   | failing s => simp [stmtPhase1] at h
   | upsert rows assign => exact absurd hs (by simp [StmtWF])
+  | updateLim sets w ord lim => exact absurd hs (by simp [StmtWF])
+  | deleteLim w ord lim => exact absurd hs (by simp [StmtWF])
 
 /-! ### one branch -/
 
